@@ -136,7 +136,7 @@ func init() {
 		return nil
 	}
 	intrinsics[rtPkg+"Symbolic"] = func(in *Interp, _ *frame, _ *ssa.Function, a []Value) Value {
-		return in.tt.Bool(in.cfg.Concrete == nil)
+		return in.tt.True // "running under the engine" (also in concrete validation mode)
 	}
 	intrinsics[rtPkg+"Bound"] = func(in *Interp, _ *frame, _ *ssa.Function, a []Value) Value {
 		in.res.Bounds[in.argStr(a[0])] = fmt.Sprint(in.concreteInt(a[1].(*Term), true))
@@ -711,6 +711,15 @@ func (in *Interp) nativeOf(t types.Type, v Value) (interface{}, bool) {
 	case *Value:
 		if x == nil {
 			return nil, true
+		}
+		// fmt prints a pointer to a struct as &{...}
+		if t != nil {
+			if pt, ok := t.Underlying().(*types.Pointer); ok {
+				if st, isStruct := (*x).(Struct); isStruct {
+					inner, ok := in.nativeOf(pt.Elem(), st)
+					return "&" + fmt.Sprint(inner), ok
+				}
+			}
 		}
 		return fmt.Sprintf("%p", x), true
 	case Struct:
